@@ -184,3 +184,51 @@ def link_op_call(node):
     if isinstance(recv, ast.Attribute) and recv.attr in ('source_link', 'target_link'):
         return (src(recv.value), recv.attr, node.func.attr, node)
     return None
+
+
+# ---------------------------------------------------------------------------
+# type-name dispatch: atoms that let absint.Interp decide comparisons of a (case-normalised) type-name parameter with
+# string literals, whatever the spelling (== chains, `in` tuples / dict tables, a local holding the normalised name)
+def type_name_atoms(P):
+    '''state: 'type' (the canonical upper-case name given) and 'declared_case' (False: the caller spelled it lower-case)'''
+    def cmp_lit(e, s, tr):
+        a, b = e['_A'], e['_B']
+        lit, other = (a, b) if isinstance(a, ast.Constant) else (b, a)
+        if not (isinstance(lit, ast.Constant) and isinstance(lit.value, str)):
+            return None
+        if is_case_normalised(other) and isinstance(other.func.value, ast.Name) and other.func.value.id == P:
+            n = other.func.attr
+        elif isinstance(other, ast.Name) and other.id == P:
+            n = None
+        else:
+            return None
+        spelled = s['type'] if s.get('declared_case', True) else s['type'].lower()
+        if n is None:
+            return spelled == lit.value
+        return getattr(spelled, n)() == lit.value
+
+    def ne_lit(e, s, tr):
+        r = cmp_lit(e, s, tr)
+        return None if r is None else (not r)
+
+    def in_lits(e, s, tr):
+        lits = e['_L']
+        if isinstance(lits, ast.Dict) and all(k is not None for k in lits.keys):
+            elts = lits.keys
+        elif isinstance(lits, (ast.Tuple, ast.List, ast.Set)):
+            elts = lits.elts
+        else:
+            return None
+        for x in elts:
+            r_ = cmp_lit({'_A': e['_A'], '_B': x}, s, tr)
+            if r_ is None:
+                return None
+            if r_:
+                return True
+        return False
+
+    def not_in_lits(e, s, tr):
+        r = in_lits(e, s, tr)
+        return None if r is None else (not r)
+
+    return [('_A == _B', cmp_lit), ('_A != _B', ne_lit), ('_A in _L', in_lits), ('_A not in _L', not_in_lits)], cmp_lit
